@@ -304,6 +304,11 @@ def run_harness(exe, casefile, ids, per_case_timeout=5, env_extra=None, total_ti
                 err = open(errpath, errors='replace').read()
                 results['@exit'] = classify_crash(err[-8000:], rc)
             break
+        if rc == 3 and nxt > start and results.get(ids[nxt - 1]) == 'FAULT Hang':
+            # the harness reported a per-case timeout itself and exited: continue after it
+            crashes += 1
+            start = nxt
+            continue
         # case ids[nxt] did not produce a result: it crashed
         err = open(errpath, errors='replace').read()
         k = err.rfind('@@CASE ')
